@@ -4,6 +4,7 @@ package main
 
 import (
 	"fmt"
+	"go/types"
 	"os"
 	"regexp"
 	"sort"
@@ -139,6 +140,7 @@ func discharge(groups []*ObGroup, opt DischargeOpts) {
 		gv     []*Term
 		sub    int // >0: one instance of a split group
 		pruned string
+		q      *Term
 	}
 	var jobs []job
 	split := map[*ObGroup]int{}
@@ -170,7 +172,7 @@ func discharge(groups []*ObGroup, opt DischargeOpts) {
 				nt++
 			}
 		}
-		if !g.Canary && nt > 1 && nt <= 24 && hasQuant(q) {
+		if !g.Canary && nt > 1 && (nt <= 400 && hasQuant(q) || nt <= 8) {
 			k := 0
 			for _, o := range g.Instances {
 				if o.Claim.IsTrue() {
@@ -184,7 +186,7 @@ func discharge(groups []*ObGroup, opt DischargeOpts) {
 				if pq, dropped := prunedQuery(o); dropped {
 					pr = Script([]*Term{pq}, nil, "", TS.Defs)
 				}
-				jobs = append(jobs, job{g, sc, gv, k, pr})
+				jobs = append(jobs, job{g, sc, gv, k, pr, qi})
 			}
 			split[g] = k
 			g.Status = "proved"
@@ -202,7 +204,7 @@ func discharge(groups []*ObGroup, opt DischargeOpts) {
 				}
 			}
 		}
-		jobs = append(jobs, job{g, script, gv, 0, pr})
+		jobs = append(jobs, job{g, script, gv, 0, pr, q})
 	}
 	var mu sync.Mutex
 	par := opt.Par
@@ -245,6 +247,22 @@ func discharge(groups []*ObGroup, opt DischargeOpts) {
 				r2 := Solve(j.script, to, opt.Seed, fmt.Sprintf("q%d", i), opt.NeedTwo && !j.g.Canary)
 				r2.Secs += r.Secs
 				r = r2
+			}
+			if r.Status == "sat" && !j.g.Canary && j.q != nil {
+				// look for a small counterexample (input sizes within the replay bound) and prefer it
+				mu.Lock()
+				b := replayBounds(j.g)
+				var sc2 string
+				if b != nil {
+					sc2 = Script([]*Term{j.q, b}, j.gv, "", TS.Defs)
+				}
+				mu.Unlock()
+				if sc2 != "" {
+					r2 := Solve(sc2, 15*time.Second, opt.Seed, fmt.Sprintf("q%db", i), false)
+					if r2.Status == "sat" {
+						r.Output = r2.Output
+					}
+				}
 			}
 			if j.sub > 0 {
 				mu.Lock()
@@ -473,4 +491,58 @@ func hasQuant(t *Term) bool {
 		return false
 	}
 	return rec(t)
+}
+
+// replayBounds: sizes of the input slices / strings small enough to be rebuilt by the replay harness.
+func replayBounds(g *ObGroup) *Term {
+	for _, o := range g.Instances {
+		c := o.Ctx
+		if c == nil || len(c.ParamVals) == 0 {
+			continue
+		}
+		var bs []*Term
+		var walk func(v Value, depth int)
+		walk = func(v Value, depth int) {
+			if depth > 8 {
+				return
+			}
+			switch x := v.(type) {
+			case *StructV:
+				for _, f := range x.F {
+					walk(f, depth+1)
+				}
+			case PtrV:
+				if x.Sym != nil {
+					if ob, ok := c.InitSym[x.Sym.id]; ok {
+						walk(c.initVals[ob], depth+1)
+					}
+				}
+			case SliceV:
+				if x.Heap {
+					bs = append(bs, Cmp("<=", x.Len, c.idx(8), true), Cmp(">=", x.Len, c.idx(0), true))
+					if _, isBasic := under(x.Elem).(*types.Basic); !isBasic && depth < 4 {
+						st := c.scratchState()
+						for i := 0; i < 8; i++ {
+							func() {
+								defer func() { recover() }()
+								walk(c.heapRead(st, x.Elem, x.Ref, Arith("+", x.Off, c.idx(int64(i))), nil), depth+2)
+							}()
+						}
+					}
+				}
+			case StrV:
+				if x.Arr != nil && x.Len != nil {
+					bs = append(bs, Cmp("<=", x.Len, c.idx(12), true))
+				}
+			}
+		}
+		for _, v := range c.ParamVals {
+			walk(v, 0)
+		}
+		if len(bs) == 0 {
+			return nil
+		}
+		return And(bs...)
+	}
+	return nil
 }
